@@ -298,13 +298,19 @@ class QubitHamiltonian(QubitOperator):
         # check is ignored if comparing to a QubitOperator or a bare
         # QubitHamiltonian.
         if self.mapping is not None and self.up_then_down is not None and \
-                                other_hamiltonian.mapping is not None and \
-                                other_hamiltonian.up_then_down is not None:
+                                getattr(other_hamiltonian, "mapping", None) is not None and \
+                                getattr(other_hamiltonian, "up_then_down", None) is not None:
 
-            if self.mapping.upper() != other_hamiltonian.mapping.upper():
+            if self.mapping.upper() != getattr(other_hamiltonian, "mapping", None).upper():
                 raise RuntimeError("Mapping must be the same for all QubitHamiltonians.")
-            elif self.up_then_down != other_hamiltonian.up_then_down:
+            elif self.up_then_down != getattr(other_hamiltonian, "up_then_down", None):
                 raise RuntimeError("Spin ordering must be the same for all QubitHamiltonians.")
+
+        # A plain QubitOperator carries no mapping information: it is added as is.
+        if isinstance(other_hamiltonian, of.QubitOperator) and not isinstance(other_hamiltonian, QubitHamiltonian):
+            plain_operator = other_hamiltonian
+            other_hamiltonian = QubitHamiltonian(mapping=self.mapping, up_then_down=self.up_then_down)
+            other_hamiltonian.terms = plain_operator.terms.copy()
 
         return super(QubitOperator, self).__iadd__(other_hamiltonian)
 
@@ -313,9 +319,9 @@ class QubitHamiltonian(QubitOperator):
         # Additional checks for == operator. This check is ignored if comparing
         # to a QubitOperator or a bare QubitHamiltonian.
         if self.mapping is not None and self.up_then_down is not None and \
-                                other_hamiltonian.mapping is not None and \
-                                other_hamiltonian.up_then_down is not None:
-            if (self.mapping.upper() != other_hamiltonian.mapping.upper()) or (self.up_then_down != other_hamiltonian.up_then_down):
+                                getattr(other_hamiltonian, "mapping", None) is not None and \
+                                getattr(other_hamiltonian, "up_then_down", None) is not None:
+            if (self.mapping.upper() != getattr(other_hamiltonian, "mapping", None).upper()) or (self.up_then_down != getattr(other_hamiltonian, "up_then_down", None)):
                 return False
 
         return super(QubitOperator, self).__eq__(other_hamiltonian)
